@@ -120,7 +120,14 @@ def _wf_payload(cmd, p):
     if cmd in ("ping", "pong", "feefilter"):
         return len(p) == 8
     if cmd == "version":
-        return 46 <= len(p) <= 358
+        if not 46 <= len(p) <= 358:
+            return False
+        if len(p) <= 80:
+            return len(p) in (46, 72, 80)
+        r = _varint(p, 80)
+        if r is None or r[0] > 256 or r[1] + r[0] > len(p):
+            return False
+        return len(p) - (r[1] + r[0]) in (0, 4, 5)
     if cmd == "headers":
         r = _varint(p, 0)
         return r is not None and r[0] <= 2000 and len(p) == r[1] + 81 * r[0] and all(p[r[1] + 81 * k + 80] == 0 for k in range(r[0]))
@@ -399,7 +406,8 @@ def monitor_c15(script, cap=HANDSHAKE_CAP_FALLBACK):
         if "crash" in raw:
             declared = int(a.get("len", "0") or 0)
             alloc = "makeslice" in note or "out_of_memory" in note or "cannot_allocate" in note
-            if alloc and _declared_count_cause(verb, a) and declared < 2 ** 31:
+            fatal_oom = ("out_of_memory" in note or "cannot_allocate" in note) and "panic:" not in note
+            if fatal_oom and _declared_count_cause(verb, a) and declared < 2 ** 31:
                 hits.append(("alloc-declared-count",
                              f"a count/length inside the payload of `{short}` sizes an allocation in the dependency's decoder and the process aborts: {note[:120]}"))
             elif alloc and declared >= 2 ** 31:
